@@ -58,6 +58,9 @@ class Ctx:
             label = ast.unparse(node.iter) if isinstance(node, ast.For) else "while " + ast.unparse(node.test)
         return self.loops.get((func_qual, label)) or self.loops.get(label)
 
+    def native_override(self, interp, f, args, kw):
+        return NotImplemented
+
     # ---- default hooks: everything unsupported unless a theory provides it
     def make_set(self, ex, vals):
         raise Unsupported("set with symbolic elements (no set theory in this context)")
